@@ -105,6 +105,13 @@ PROPS = {
              "non-trivial = at least one handshake was attempted; distinct = event log",
              {"runs": 3000, "budget_s": 35}, {"runs": 300000, "budget_s": 900},
              must={"all": ["handshakes-judged:ok", "handshakes-judged:fail", "handshakes-after-a-rotation", "login-handshakes", "watchers-superseded", "same-config-checks", "ca-file:torn", "ca-file:delete"]}),
+    "C16": P("plans = 4-12 concurrent tasks per run (first request, whole login, request on a fresh session, request that must refresh, logout, crafted callback, Kubernetes Secret reconcile, CA-file rewrite "
+             "under a millisecond-interval watcher, TLS configuration load) on 1-2 filters with static and discovered endpoints, static and fetched keys, memory and Redis, inline and Kubernetes client "
+             "secrets, plain and TLS providers; -race build with statement-level yields and simulator mutexes in memory.go, discovery.go, tls.go, file.go; uniform and priority scheduling; "
+             "oracle = ThreadSanitizer reports canonicalised to the pair of innermost authservice functions, fatal concurrent map access, completion of all tasks within the budget; "
+             "a planted-race positive control and a locked negative control run at the start of every worker; non-trivial = at least two task kinds overlapped; distinct = schedule trace",
+             {"runs": 1500, "budget_s": 45}, {"runs": 150000, "budget_s": 900}, race=True, instr=True, no_shrink=True,
+             must={"all": ["task-kind-pairs-overlapped"]}),
 }
 
 
